@@ -397,6 +397,10 @@ def _real_items(np_, forms, ks, atom, numtype, bo):
             out.append(rp.values(np_, k, atom, numtype, bo, 100 * (i + 1)))
         elif f == 'otherbo':
             out.append(rp.values(np_, k, atom, numtype, 'big' if bo == 'little' else 'little', 100 * (i + 1)))
+        elif f == 'forder':
+            out.append(np_.asfortranarray(rp.values(np_, k, atom, numtype, bo, 100 * (i + 1))))
+        elif f == 'strided':
+            out.append(rp.values(np_, 2 * k, atom, numtype, bo, 100 * (i + 1))[::2])
         elif f == 'cast':
             out.append(rp.values(np_, k, atom, 'float64' if numtype != 'float64' else 'int32', 'little', 100 * (i + 1)))
         elif f == 'list':
@@ -671,6 +675,14 @@ def obligations(tier, mode='api', prop='C04'):
                           for K in range(0, Kmax + 1) for (nt, bo, at) in cfg[:2 if not thorough else 5]
                           for f in (('same', 'cast', 'list') if K == 1 or thorough else ('cast',))],
                   timeout=T, replay='replay_ragged', sym='l1..lK, k1, q, probe', bounds=common_b))
+    obs.append(Ob('R-append-layout', 'h_append',
+                  splits=[dict(K=1, F=2, numtype=nt, bo=bo, atom=at, via=via, forms=fs, mode=mode)
+                          for (nt, bo, at, via, fs) in [('float64', 'big', (2,), 'append', ('forder',)),
+                                                        ('int16', 'little', (2, 3), 'iterappend', ('forder', 'strided')),
+                                                        ('int32', 'little', (3,), 'iterappend', ('strided', 'forder'))]],
+                  timeout=T * 2, replay='replay_ragged', sym='l1, m, k1, k2, q, probe',
+                  bounds='appended ndarrays whose MEMORY LAYOUT is column-major or non-contiguous (atom rank 1 and 2): what is '
+                         'stored is the row-major value all the same'))
     obs.append(Ob('R-append-smallindex', 'h_append',
                   splits=[dict(K=K, F=2, numtype='int16', bo='little', atom=at, via='iterappend', forms=('same', 'cast'),
                                indextype=it, mode=mode, _must=('end', 'overflow-refused'))
